@@ -23,6 +23,7 @@ pub uninterp spec fn finv(a: int) -> int;
 
 impl Felt {
     pub uninterp spec fn val(self) -> int;
+    pub const MODULUS: u64 = 0xFFFF_FFFF_0000_0001;
 
     #[verifier::external_body]
     pub fn new(x: u64) -> (r: Felt) ensures r.val() == (x as int) % P() { unimplemented!() }
@@ -114,6 +115,18 @@ impl FromSpecImpl<u32> for Felt {
 impl From<u32> for Felt {
     #[verifier::external_body]
     fn from(v: u32) -> (r: Felt) { unimplemented!() }
+}
+pub uninterp spec fn felt_try_from_err(v: u64) -> String;
+impl TryFromSpecImpl<u64> for Felt {
+    open spec fn obeys_try_from_spec() -> bool { true }
+    open spec fn try_from_spec(v: u64) -> Result<Felt, String> {
+        if (v as int) < P() { Ok(felt_of(v as int)) } else { Err(felt_try_from_err(v)) }
+    }
+}
+impl TryFrom<u64> for Felt {
+    type Error = String;
+    #[verifier::external_body]
+    fn try_from(v: u64) -> (r: Result<Felt, String>) { unimplemented!() }
 }
 impl FromSpecImpl<u16> for Felt {
     open spec fn obeys_from_spec() -> bool { true }
